@@ -4,10 +4,36 @@ import (
 	"fmt"
 
 	"github.com/jmsadair/raft"
+	"verif/mc/common"
 	"verif/mc/explore"
 	"verif/mc/monitor"
 	"verif/mc/sim"
 )
+
+func memberMonitors() []monitor.Monitor {
+	a := &monitor.Apply{}
+	tv := &monitor.TermVote{}
+	return []monitor.Monitor{a, &monitor.Leader{}, &monitor.Commit{}, &monitor.LogMatch{}, tv, &monitor.Member{TV: tv}, &monitor.Linear{A: a},
+		&monitor.Reads{A: a, Kind: "read", Prop: "C05"}}
+}
+
+// memberClassify marks violations that happen while some leader acts on a
+// configuration that has been superseded by a committed one (K5: followers
+// switch configuration when an entry is applied, not when it is appended).
+func memberClassify(c *sim.Cluster, v *common.Violation) {
+	var latest uint64
+	for i := range c.Nodes {
+		if vw, ok := c.View(i); ok && vw.HasCommitted && vw.Committed.Index > latest {
+			latest = vw.Committed.Index
+		}
+	}
+	for i := range c.Nodes {
+		if vw, ok := c.View(i); ok && vw.State == raft.Leader && vw.HasConfiguration && vw.Configuration.Index < latest {
+			v.Signature += ":leader-on-superseded-configuration"
+			return
+		}
+	}
+}
 
 func safetyMonitors() []monitor.Monitor {
 	a := &monitor.Apply{}
@@ -86,6 +112,8 @@ func init() {
 		Budget: sim.Budget{Timeouts: 9, Elapses: 9, Beats: 9, Writes: 9, Reads: 9, Reorders: -1, Splits: 9, Cuts: 9, Deviations: -1}})
 	reg(&explore.Suite{Name: "freesnap3", Cfg: sim.Config{Voters: 3, SnapAt: 2}, Seed: seedLeader3,
 		Budget: sim.Budget{Timeouts: 9, Elapses: 9, Beats: 9, Writes: 9, Reads: 9, Reorders: -1, Splits: 9, Cuts: 9, Crashes: 9, Restarts: 9, Deviations: -1}})
+	reg(&explore.Suite{Name: "freeapi", Cfg: sim.Config{Voters: 3, Spares: 1, Cold: true}, Seed: seedLeader3,
+		Budget: sim.Budget{Timeouts: 9, Elapses: 9, Beats: 9, Writes: 9, Reads: 9, Members: 9, Reorders: -1, Splits: 9, Cuts: 9, Deviations: -1}})
 	reg(&explore.Suite{Name: "free3", Cfg: sim.Config{Voters: 3},
 		Budget: sim.Budget{Timeouts: 9, Elapses: 9, Beats: 9, Writes: 9, Reorders: -1, Splits: 9, Deviations: -1}})
 	reg(&explore.Suite{Name: "free3h", Cfg: sim.Config{Voters: 3, StoreHook: true},
@@ -161,6 +189,19 @@ func init() {
 		}
 	}
 	numHV = hv
+	// membership: 1-3 voters plus spares started empty
+	for d := 0; d <= 4; d++ {
+		for v := 1; v <= 3; v++ {
+			reg(&explore.Suite{Name: fmt.Sprintf("mem%d-d%d", v, d), Cfg: sim.Config{Voters: v, Spares: 2}, Monitors: memberMonitors, Classify: memberClassify,
+				Budget: sim.Budget{Timeouts: 2, Elapses: 2, Beats: 1, Writes: 1, Members: 2, Reorders: -1, Splits: 1, Cuts: 1, Deviations: d}})
+		}
+		reg(&explore.Suite{Name: fmt.Sprintf("memlead3-d%d", d), Cfg: sim.Config{Voters: 3, Spares: 1}, Seed: seedLeader3, Monitors: memberMonitors, Classify: memberClassify,
+			Budget: sim.Budget{Timeouts: 2, Elapses: 2, Beats: 1, Writes: 1, Members: 2, Reorders: -1, Splits: 1, Cuts: 1, Crashes: 1, Restarts: 1, Deviations: d}})
+	}
+	reg(&explore.Suite{Name: "freememlead3", Cfg: sim.Config{Voters: 3, Spares: 1}, Seed: seedLeader3, Monitors: memberMonitors,
+		Budget: sim.Budget{Timeouts: 9, Elapses: 9, Beats: 9, Writes: 9, Reads: 9, Members: 9, Reorders: -1, Splits: 9, Cuts: 9, Crashes: 9, Restarts: 9, Deviations: -1}})
+	reg(&explore.Suite{Name: "freemem4", Cfg: sim.Config{Voters: 4, Spares: 1}, Monitors: memberMonitors,
+		Budget: sim.Budget{Timeouts: 9, Elapses: 9, Beats: 9, Writes: 9, Reads: 9, Members: 9, Reorders: -1, Splits: 9, Cuts: 9, Crashes: 9, Restarts: 9, Deviations: -1}})
 	// small unbounded spaces (no deviation bound): every order within the budgets
 	reg(&explore.Suite{Name: "all2", Cfg: sim.Config{Voters: 2},
 		Budget: sim.Budget{Timeouts: 3, Elapses: 3, Beats: 1, Writes: 1, Reorders: -1, Splits: 1, Deviations: -1}})
